@@ -610,12 +610,51 @@ fn gen_c03(rng: &mut Rng, tier: Tier, miri: bool) -> Case {
     case
 }
 
+/// One representative per algorithm family of every planner, for Engine B's instance pool.
+pub fn miri_families() -> Vec<(ElemKind, Spec)> {
+    let mut v = Vec::new();
+    let b = |n: usize| Box::new(Spec::Butterfly(n));
+    for elem in [ElemKind::F32, ElemKind::F64] {
+        // portable code through the scalar planner: butterflies, Radix4, RadixN, Radix3, MixedRadix[Small], GoodThomas[Small], Rader, Bluestein
+        for n in [2usize, 3, 4, 5, 6, 7, 8, 9, 11, 12, 13, 16, 17, 19, 23, 24, 27, 29, 31, 32, 64, 81, 60, 35, 77, 37, 59, 100, 210, 118] {
+            v.push((elem, Spec::Planned(PK::Scalar, n)));
+        }
+        // SSE: every butterfly (the 2x-unrolled ones and the prime ones), SseRadix4, mixed radix over SSE leaves, Rader/Bluestein inners
+        for n in [1usize, 2, 3, 4, 5, 6, 7, 8, 9, 10, 11, 12, 13, 15, 16, 17, 19, 23, 24, 29, 31, 32, 64, 128, 96, 37, 59, 35, 120] {
+            v.push((elem, Spec::Planned(PK::Sse, n)));
+        }
+        // AVX: butterflies, each MixedRadix*xn radix (2,3,4,5,6,7,8,9,11,12,16) incl. odd row lengths, RadersAvx2, BluesteinsAvx
+        for n in [5usize, 7, 8, 9, 11, 12, 16, 18, 24, 27, 32, 36, 48, 54, 64, 72, 128, 256, 22, 33, 44, 45, 63, 99, 80, 96, 135, 144, 160, 176, 189, 192, 216, 240, 275, 37, 59, 74, 118, 177, 146] {
+            v.push((elem, Spec::Planned(PK::Avx, n)));
+        }
+        v.push((elem, Spec::Dft(5)));
+        v.push((elem, Spec::Radix4(64)));
+        v.push((elem, Spec::Radix3(27)));
+        v.push((elem, Spec::MixedRadix(b(3), b(4))));
+        v.push((elem, Spec::MixedRadixSmall(b(5), b(3))));
+        v.push((elem, Spec::GoodThomas(b(7), b(4))));
+        v.push((elem, Spec::GoodThomasSmall(b(5), b(8))));
+        v.push((elem, Spec::Raders(b(16))));
+        v.push((elem, Spec::Bluestein(10, Box::new(Spec::Radix4(32)))));
+        v.push((elem, Spec::Radix4Base(1, b(6))));
+        v.push((elem, Spec::Radix3Base(1, b(5))));
+    }
+    v
+}
+
 /// Small worlds for Engine B (Miri): 2-3 free-running threads on one shared instance.
-fn gen_miri_shared(prop: &str, rng: &mut Rng, tier: Tier) -> Case {
-    let elem = pick_elem(rng, 8);
+fn gen_miri_shared(prop: &str, rng: &mut Rng, tier: Tier, index: u64, verif_seed: u64) -> Case {
+    let fams = miri_families();
+    // three of four cases walk the family list (a different stretch of it for every VERIF_SEED), the rest are random
+    let (elem, spec) = if index % 4 != 3 {
+        let pos = (index - index / 4).wrapping_add(verif_seed.wrapping_mul(53)) as usize % fams.len();
+        fams[pos].clone()
+    } else {
+        let elem = pick_elem(rng, 30);
+        let nmax = if tier.thorough { 400 } else { 128 };
+        (elem, gen_spec(rng, nmax, elem, 40, 2))
+    };
     let mut case = base_case(prop, elem, rng);
-    let nmax = if tier.thorough { 400 } else { 128 };
-    let spec = gen_spec(rng, nmax, elem, 30, 2);
     case.insts.push(InstDef { spec, dir: pick_dir(rng), from_planner: None });
     let nthreads = 2 + rng.below(2) as usize;
     case.threads = vec![Vec::new(); nthreads];
@@ -657,7 +696,7 @@ pub fn gen_case(prop: &str, tier: Tier, verif_seed: u64, index: u64, engine_miri
     let mut case = if engine_miri {
         match prop {
             "C03" => gen_c03(&mut rng, tier, true),
-            _ => gen_miri_shared(prop, &mut rng, tier),
+            _ => gen_miri_shared(prop, &mut rng, tier, index, verif_seed),
         }
     } else {
         match prop {
